@@ -33,7 +33,9 @@ func genVariants(e *emitter, r *rng, n int) { genVariantsAs(e, r, n, "variant") 
 // as = "variant" (C04: compare with the expected value) or "redec" (C09: feed the bytes to the re-encode pipeline)
 func genVariantsAs(e *emitter, r *rng, n int, as string) {
 	out := func(kind, name string, b []byte, exp rtcp.Packet) {
-		if as == "redec" {
+		if as == "collect" {
+			collected = append(collected, variantFrame{name, b})
+		} else if as == "redec" {
 			e.emit("v-"+kind, op1("redec", sb(b)))
 		} else {
 			e.emit("v-"+kind, opVariant(name, b, exp))
